@@ -338,6 +338,16 @@ def step (line : String) : String :=
       | some bs => "ok " ++ showBlocks bs
       | none => "err"
     | _, _, _ => "bad-op"
+  | ["decu64", h] =>
+    -- eth.DecodeUint64 on the string whose bytes are given in hex
+    match hexArg h with
+    | some bs => showResNat (Codec.decodeUint64 bs)
+    | none => "bad-op"
+  | ["encu64", d] =>
+    -- eth.EncodeUint64
+    match d.toNat? with
+    | some n => "ok " ++ String.ofList ((Codec.encodeUint64 n).map Char.ofNat)
+    | none => "bad-op"
   | ["dechex", h] =>
     -- eth.DecodeHex on the string whose bytes are given in hex
     match hexArg h with
